@@ -740,6 +740,12 @@ func (lcp *LCPStateMachine) receiveEchoRequest(pkt *LCPPacket) error {
 		return nil
 	}
 
+	// RFC 1661 5.8: the data field starts with the 4-octet Magic-Number;
+	// anything shorter is malformed and silently discarded.
+	if len(pkt.Data) < 4 {
+		return nil
+	}
+
 	// Build Echo-Reply with our magic number
 	replyData := make([]byte, 4+len(pkt.Data)-4)
 	binary.BigEndian.PutUint32(replyData[:4], lcp.config.MagicNumber)
